@@ -63,10 +63,14 @@ def run_case(case):
             cnt["nontrivial"] += 1
 
         def bad(sub, what, obs, exp):
-            if len(viol) < 6:
-                viol.append({"subcheck": sub, "case": {"w": w, "pats": [list(a) if isinstance(a, tuple) else a for a in args]},
-                             "observed": obs, "expected": exp,
-                             "what": "wildcard pattern(s) %r on a %d-bit coverpoint: %s" % (args, w, what)})
+            v = {"subcheck": sub, "case": {"w": w, "pats": [list(a) if isinstance(a, tuple) else a for a in args]},
+                 "observed": obs, "expected": exp,
+                 "what": "wildcard pattern(s) %r on a %d-bit coverpoint: %s" % (args, w, what)}
+            v["finding"] = classify(v)
+            # the cap is per kind (known finding / not), so attributed cases can never crowd out a new violation
+            same = [x for x in viol if (x.get("finding") is None) == (v["finding"] is None)]
+            if len(same) < 6:
+                viol.append(v)
         CoverageRegistry.clear()
         try:
             cg = mk_cg(w, args, counts)()
@@ -167,6 +171,11 @@ def cases_for(tier):
         two.append([a if isinstance(a, str) else list(a), b if isinstance(b, str) else list(b)])
     for i in range(0, len(two), 16):
         cases.append({"w": w, "pats": two[i:i + 16], "counts": [None, 2]})
+    # three patterns per array: nested / chained overlaps of the expanded value ranges
+    three = [["0b1xxx", "0b101x", "0b110x"], ["0b1x0x", "0b1xxx", "0b100x"], [[8, 8], [10, 14], [12, 12]], ["0b1xxx", "0b1x1x", "0bx111"],
+             [[0, 48], [1, 49], [3, 51]], ["0b10xx", "0b100x", "0b1000"], ["0b0xxx", "0b001x", "0b01xx"], [[8, 56], [9, 57], [10, 58]]]
+    three = [t for t in three if all(((str2vm(p) if isinstance(p, str) else tuple(p))[0] | (str2vm(p) if isinstance(p, str) else tuple(p))[1]) < (1 << w) for p in t)]
+    cases.append({"w": w, "pats": three, "counts": [None, 2, 3]})
     return cases
 
 
